@@ -16,8 +16,8 @@ from harness.props import c19_fp
 # ---------------------------------------------------------------------------------------------------------------
 NAME_FG = "find_peak_groups"
 RULE_FG = ("find_peak_groups: every time-sorted list of 1..3 (thorough 4) intervals with starts 0..6 step 2 and "
-           "lengths {1,3,8} (plus one zero-length interval per size: AssertionError) x (gap, left, right extension, "
-           "max_duration) in a sweep including duration cuts (max_duration 12) and a failing assert (gap <= left + "
+           "lengths {1,3,8} (plus one zero-length interval per size: AssertionError) x a fifth (thorough: a third) of the (gap, left, right extension, "
+           "max_duration) sweep including duration cuts (max_duration 12) and a failing assert (gap <= left + "
            "right); seeded random lists of up to 8 intervals with mixed dt; compared exactly (time, endtime arrays); "
            "predicate: one interval per gap cluster (independent Python clustering), first start - left extension to "
            "latest end + right extension; non-trivial = >= 2 groups one of which holds >= 2 peaks; distinct by "
@@ -73,7 +73,7 @@ def cases_fg(ctx):
             for lens in itertools.product((1, 3, 8), repeat=n):
                 pk = [(s * 2, s * 2 + l) for s, l in zip(starts, lens)]
                 for pi, prm in enumerate(PARAMS_FG):
-                    if not big(ctx) and (pi + sum(starts) + sum(lens)) % 5:
+                    if (pi + sum(starts) + sum(lens)) % (3 if big(ctx) else 5):
                         continue
                     cases.append(prm + (pk, None))
         cases.append(PARAMS_FG[0] + ([(2 * i, 2 * i + (0 if i == n - 1 else 1)) for i in range(n)], None))
